@@ -444,6 +444,7 @@ def load_program(repo=None, extra_defs=(), want_tool=True, cache=True):
     prog.tool_units = [u for u, _ in tool] if want_tool else []
     prog.flags = flags
     prog.tree_hash = key
+    prog.inlined_dispatchers = inline_single_use_dispatchers(prog)
     prog.inlined_calls = inline_expression_functions(prog)
     prog.normalised_increments = normalise_flag_increments(prog)
     return prog
@@ -537,6 +538,96 @@ def normalise_flag_increments(prog):
         if b is not None:
             rewrite(b)
     return n
+
+
+def inline_single_use_dispatchers(prog):
+    """A `static` helper with exactly one call site whose body is a run of `const` locals with call-free initialisers followed by a
+    return chain `if (c1) return e1; ... return en;` with call-free conditions - typically a dispatcher `emit(al, ...)` that selects
+    one of several functions by a mode - is substituted into its call site as the conditional expression it computes (parameters
+    and const locals replaced by the call-free arguments / initialisers), and dropped from the program.  The rules that look at
+    the caller then see the calls the helper makes where the pinned tree has them.  Returns the names of the helpers inlined."""
+    import copy
+
+    def callfree(e):
+        for m in walk(e):
+            k = m.get("kind")
+            if k in ("CallExpr", "CompoundAssignOperator", "StmtExpr") or (k == "BinaryOperator" and m.get("opcode") == "=") or \
+                    (k == "UnaryOperator" and m.get("opcode") in ("++", "--")):
+                return False
+        return True
+    sites = {}
+    for name, f in prog.functions.items():
+        b = prog.body(f)
+        if b is None:
+            continue
+        for m in walk(b):
+            if m.get("kind") == "CallExpr" and callee_name(m) in prog.functions:
+                sites.setdefault(callee_name(m), []).append((name, m))
+    done = []
+    for name, f in list(prog.functions.items()):
+        if f.get("storageClass") != "static" or len(sites.get(name, [])) != 1 or sites[name][0][0] == name:
+            continue
+        body = prog.body(f)
+        st = kids(body) if body is not None else []
+        lets = {}
+        i = 0
+        ok = True
+        while i < len(st) and st[i].get("kind") == "DeclStmt":
+            for vd in kids(st[i]):
+                if vd.get("kind") != "VarDecl" or not kids(vd) or "const" not in qtype(vd) or not callfree(kids(vd)[-1]):
+                    ok = False
+                else:
+                    lets[vd["id"]] = kids(vd)[-1]
+            i += 1
+        if not ok or i >= len(st):
+            continue
+        e = _return_chain(f, st[i:])
+        if e is None or e.get("kind") != "ConditionalOperator":
+            continue                    # plain `return <expr>;` bodies belong to inline_expression_functions
+        conds_ok = True
+        n_ = e
+        while n_.get("kind") == "ConditionalOperator":
+            if not callfree(kids(n_)[0]):
+                conds_ok = False
+            n_ = kids(n_)[2]
+        if not conds_ok or not any(m.get("kind") == "CallExpr" for m in walk(e)):
+            continue                    # call-free chains are handled by inline_expression_functions
+        caller, call = sites[name][0]
+        ps = prog.params(f)
+        args = call_args(call)
+        if len(args) != len(ps) or not all(callfree(a) for a in args):
+            continue
+        assigned = {(strip(kids(m)[0], casts=True).get("referencedDecl") or {}).get("id") for m in walk(body)
+                    if m.get("kind") in ("BinaryOperator", "CompoundAssignOperator", "UnaryOperator") and
+                    m.get("opcode", "") in ("=", "+=", "-=", "|=", "&=", "^=", "++", "--", "&") and kids(m)}
+        if any(p["id"] in assigned for p in ps):
+            continue
+        binding = {p["id"]: a for p, a in zip(ps, args)}
+
+        def subst(x):
+            if isinstance(x, dict):
+                if x.get("kind") == "DeclRefExpr":
+                    rid = x.get("referencedDecl", {}).get("id")
+                    if rid in binding:
+                        return {"kind": "ParenExpr", "type": x.get("type", {}), "valueCategory": x.get("valueCategory", "prvalue"),
+                                "range": x.get("range", {}), "inner": [copy.deepcopy(binding[rid])], "id": x.get("id", "") + "'"}
+                    if rid in lets:
+                        return {"kind": "ParenExpr", "type": x.get("type", {}), "valueCategory": "prvalue",
+                                "range": x.get("range", {}), "inner": [subst(copy.deepcopy(lets[rid]))], "id": x.get("id", "") + "'"}
+                return {k_: (subst(v_) if k_ == "inner" else v_) for k_, v_ in x.items()}
+            if isinstance(x, list):
+                return [subst(y) for y in x]
+            return x
+        new = subst(copy.deepcopy(e))
+        keep = {k_: call[k_] for k_ in ("id", "range", "type", "valueCategory") if k_ in call}
+        call.clear()
+        call.update(keep)
+        call["kind"] = "ParenExpr"
+        call["inner"] = [new]
+        call["_inlined"] = name
+        del prog.functions[name]
+        done.append(name)
+    return done
 
 
 def inline_expression_functions(prog):
